@@ -203,6 +203,8 @@ func parseSubstvar(input *input, relation *Relation) error {
 		switch peek {
 		case 0:
 			return errors.New("Oh no. Reached EOF before substvar finished")
+		case ',', '|', '$':
+			return fmt.Errorf("Unterminated substvar: '%c' before the closing '}'", peek)
 		case '}':
 			input.Next()
 			relation.Possibilities = append(relation.Possibilities, *ret)
@@ -368,6 +370,10 @@ func parsePossibilityNumber(input *input, version *VersionRelation) error {
 		case ')':
 			version.Number = strings.TrimRight(version.Number, " \t\r\n")
 			return nil
+		case ',', '|', '(':
+			/* The ')' is missing: this is the next relation, alternative or
+			 * clause already. */
+			return fmt.Errorf("Unterminated version clause: '%c' before the closing ')'", peek)
 		}
 		version.Number += string([]byte{input.Next()})
 	}
@@ -421,6 +427,8 @@ func parsePossibilityArch(input *input, possi *Possibility) error {
 			return errors.New("Oh no. Reached EOF before Arch list finished")
 		case '!':
 			return errors.New("You can only negate whole blocks :(")
+		case ',', '|', '[':
+			return fmt.Errorf("Unterminated architecture list: '%c' before the closing ']'", peek)
 		case ']', ' ', '\t', '\r', '\n': /* Let our parent deal with these */
 			archObj, err := ParseArch(arch)
 			if err != nil {
@@ -480,6 +488,8 @@ func parsePossibilityStage(input *input, stageSet *StageSet) error {
 			}
 			stage.Not = !stage.Not
 			continue
+		case ',', '|', '<':
+			return fmt.Errorf("Unterminated profile group: '%c' before the closing '>'", peek)
 		case '>', ' ', '\t', '\r', '\n': /* Let our parent deal with these */
 			stageSet.Stages = append(stageSet.Stages, stage)
 			return nil
